@@ -6,7 +6,7 @@ from ..core import AnalysisError, norm, walk_no_nested
 from . import C10
 
 META = {
-    'design_ref': 'DESIGN.md §3 C05',
+    'design_ref': 'DESIGN.md §5 C05',
     'technique': "shape-case abstract interpretation of set/remove on both paragraph implementations and of the final-newline helper; __setitem__ and set_field_to_simple_value interpreted on symbolic strings by cases (F / F\\n / F\\nR\\n / F\\nR') against the specified calls; set_field_from_raw_string unfolded into paths (helpers inlined): per-line acceptance as regular languages, validate-before-commit on every committing path; comment hand-over by object identity",
     'level_text': 'Static decision of the structural conditions for locality: a new field is placed last only after the last field was '
                   'terminated, the terminating newline goes to the last line of the last field and nowhere else, a replacement never moves '
